@@ -7,14 +7,15 @@ import numpy as np
 import simworld
 from harness import execute, OracleFail, Skip
 from checks import common as cm
-from checks import c01
+from checks import c01, c03
 
 ID = 'C02'
 BUDGET = {'quick': 20000, 'thorough': 1000000}
 WALL = {'quick': 100, 'thorough': 1500}
 CHUNK = 60
-REQUIRED_PROBES = ['sweep_layouts', 'padded_block', 'extent_eq_procs', 'accessors_on_swapper_grid']
-RULE = ('case 0 = complete sweep of Layout for all extents n in 1..40 and process counts p in 1..n '
+REQUIRED_PROBES = ['sweep_layouts', 'padded_block', 'extent_eq_procs', 'accessors_on_swapper_grid', 'kind_swapper', 'swapper_sets_in_another_order']
+RULE = ('15% of the cases: kind swapper = a LayoutSwapper with C03\'s random groupings listed in any order: bufferSize >= every layout, raw transposes and a Grid with arrays of exactly bufferSize elements along a walk, every accessor after every step; '
+        'case 0 = complete sweep of Layout for all extents n in 1..40 and process counts p in 1..n '
         '(every rank coordinate); other cases = the C01 generator (shape, process grid, orderings, '
         'dtype, transposes) run on P simulated ranks: every rank reports its partition tables, a Grid '
         'is filled in one layout, moved to every other layout with buffers of exactly bufferSize, and '
@@ -27,6 +28,11 @@ ASSUMPTIONS = ['input domain: every process owns at least one point in every dis
 def gen(rng, tier, idx):
     if idx == 0:
         return dict(kind='sweep', P=1, nmax=40, sched=simworld.default_sched(0))
+    if rng.random() < 0.2:
+        # the buffer-size and accessor clauses on a LayoutSwapper with random groupings listed in any order
+        c = c03._gen_plain(rng, tier, idx)
+        c['kind'] = 'swapper'
+        return c
     c = c01.gen_base(rng, tier, idx)
     c['kind'] = 'world'
     # a walk through all layouts for the Grid accessor part
@@ -201,6 +207,56 @@ def check_accessors(grid, G, eta, case, rank):
         raise OracleFail('accessor', dict(why='nGlobalCoords'))
 
 
+def run_swapper(case, tape):
+    """bufferSize suffices for every layout and every transpose of a swapper (arrays of exactly that size),
+    and a Grid on it answers every accessor correctly in every layout of every group."""
+    P = case['P']
+    shape = case['shape']
+    dt = cm.np_dtype(case['dtype'])
+
+    def rank_fn(comm, rank):
+        from pygyro.model.grid import Grid
+        sw = c03.build_swapper(comm, case)
+        bsize = int(sw.bufferSize)
+        names = [n for g in case['groups'] for n, _ in g]
+        for n in names:
+            lay = sw.getLayout(n)
+            if bsize < int(lay.size):
+                raise OracleFail('buffer-size', dict(layout=n, rank=rank, bufferSize=bsize, size=int(lay.size)))
+        eta = [3000.0 * (d + 1) + np.arange(n, dtype=float) for d, n in enumerate(shape)]
+        G = cm.global_array(shape, case['dtype'], salt=5)
+        # raw transposes with arrays of exactly bufferSize elements
+        cur = case['start']
+        a = cm.poison(np.empty(bsize, dtype=dt))
+        b = cm.poison(np.empty(bsize, dtype=dt))
+        lay = sw.getLayout(cur)
+        a[:lay.size] = cm.local(G, lay).ravel()
+        for step, (nxt, use_buf) in enumerate(case['walk']):
+            buf = cm.poison(np.empty(bsize, dtype=dt)) if use_buf else None
+            sw.transpose(a, b, cur, nxt, buf)
+            ld = sw.getLayout(nxt)
+            if not cm.bits_equal(b[:ld.size].reshape(ld.shape), cm.local(G, ld)):
+                raise OracleFail('buffer-size', dict(why='transpose with exactly bufferSize elements gave wrong data',
+                                                     step=step, src=cur, dst=nxt, rank=rank))
+            a, b = b, a
+            cur = nxt
+        # a Grid (its own arrays have exactly bufferSize elements) walked through the same layouts
+        grid = Grid(eta, [], sw, case['start'], comm, dtype=dt)
+        grid.getAllData()[:] = cm.local(G, sw.getLayout(case['start']))
+        check_accessors(grid, G, eta, case, rank)
+        for nxt, _ in case['walk']:
+            grid.setLayout(nxt)
+            check_accessors(grid, G, eta, case, rank)
+        return True
+
+    def post(w, results):
+        probes = {'kind_swapper': 1}
+        if case.get('order_shuffled'):
+            probes['swapper_sets_in_another_order'] = 1
+        return dict(nontrivial=P > 1, probes=probes)
+    return execute(ID, P, case['sched'], tape, rank_fn, post)
+
+
 def run(case, tape=None):
     if case.get('kind') == 'sweep':
         def rank_fn(comm, rank):
@@ -209,6 +265,9 @@ def run(case, tape=None):
         def post(w, results):
             return dict(nontrivial=True, probes={'sweep_layouts': results[0]})
         return execute(ID, 1, case['sched'], tape, rank_fn, post)
+
+    if case.get('kind') == 'swapper':
+        return run_swapper(case, tape)
 
     P = case['P']
     names = [n for n, _ in case['layouts']]
@@ -285,6 +344,10 @@ def run(case, tape=None):
 
 def shrink(case):
     if case.get('kind') == 'sweep':
+        return
+    if case.get('kind') == 'swapper':
+        for c in c03.shrink(case):
+            yield dict(c, kind='swapper')
         return
     for c in c01.shrink(case):
         c = dict(c)
